@@ -123,6 +123,27 @@ Definition all_periodic_m (L : latt) (pbc : mask) (rn rd : Z) (vs : list vec) : 
                                  if norm2 w * rd <=? rn then [(w, k, vsub n s)] else []) (grid b))
            (enumerate_from 0 vs).
 
+(* the same search with an arbitrary acceptance test (from_box: the open box; from_sphere is all_periodic_m) *)
+Definition images_where_m (L : latt) (pbc : mask) (rn rd : Z) (P : vec -> bool) (vs : list vec) : list (vec * Z * vec) :=
+  let b := bounds L pbc rn rd in
+  flat_map (fun kv => let '(k, v) := kv in
+              let '(v', s) := reduce L pbc v in
+              flat_map (fun n => let w := vadd v' (comb n L) in
+                                 if P w then [(w, k, vsub n s)] else []) (grid b))
+           (enumerate_from 0 vs).
+(* AtomSelection.from_box(periodic=True), absolute coordinates, in DOUBLED coordinates (the middle of the box is a half-integer
+   point): lattice 2L, vectors 2p-(lo+hi), radius^2 4|hi-lo|^2, accepted when strictly inside the box *)
+Definition dblL (L : latt) : latt := let '(r1,r2,r3) := L in (smul 2 r1, smul 2 r2, smul 2 r3).
+Definition inbox2 (d : vec) (w : vec) : bool :=
+  let '(d1,d2,d3) := d in let '(w1,w2,w3) := w in
+  (- d1 <? w1) && (w1 <? d1) && (- d2 <? w2) && (w2 <? d2) && (- d3 <? w3) && (w3 <? d3).
+Definition box_m (L : latt) (pbc : mask) (lo hi : vec) (pos : list vec) : list (vec * Z * vec) :=
+  images_where_m (dblL L) pbc (4 * norm2 (vsub hi lo)) 1 (inbox2 (vsub hi lo))
+                 (map (fun p => vsub (smul 2 p) (vadd lo hi)) pos).
+Definition inside (lo hi w : vec) : Prop :=
+  let '(l1,l2,l3) := lo in let '(h1,h2,h3) := hi in let '(w1,w2,w3) := w in
+  l1 < w1 < h1 /\ l2 < w2 < h2 /\ l3 < w3 < h3.
+
 (* ---- spec-level predicates ---- *)
 Definition IsImage (L : latt) (pbc : mask) (v w n : vec) : Prop := w = vadd v (comb n L) /\ admissible pbc n.
 Definition IsMinImage (L : latt) (pbc : mask) (v w n : vec) : Prop :=
